@@ -92,6 +92,8 @@ func markReachable(root *GradContext) (pending map[*GradContext]int) {
 }
 
 func deliverGrad(edge *backwardEdge, gctx *GradContext) (err error) {
+	verifRule(edge)
+
 	grad, err := edge.gradFn()
 	if err != nil {
 		return
